@@ -16,7 +16,7 @@
 
 double sc_time_stamp() { return 0; }
 
-constexpr size_t RESET_BEGIN = 1;
+constexpr size_t RESET_BEGIN = 0;
 constexpr size_t RESET_END = 10;
 
 hex::HexSimIO io(std::cin, std::cout);
@@ -96,9 +96,12 @@ int run(const std::unique_ptr<VerilatedContext> &contextp,
   uint64_t cycle_count = 0;
   int exitCode = 0;
 
-  // Set input signals
-  top->i_rst = 0;
+  // Set input signals. Start with reset asserted and evaluate once with the
+  // clock low, so that the first rising edge resets the processor before
+  // anything is executed, stored or sampled.
+  top->i_rst = 1;
   top->i_clk = 0;
+  top->eval();
 
   while (!contextp->gotFinish() &&
          (maxCycles > 0 ? cycle_count <= maxCycles : true)) {
